@@ -32,7 +32,11 @@ func main() {
 		"ObjectID.Type", "ObjectID.Ref", "ObjectID.Version",
 		"Type.objectID", "Type.FeatureID",
 	}
-	if err := tr.Emit(filepath.Join(out, "GenIds.v"), tr.EmitFuncs(p, "generator: ids", keys)); err != nil {
+	text := tr.EmitFuncs(p, "generator: ids", keys)
+	text = append(text, []byte("\n(* literals and calls of the text functions (hand-modelled in C10/Model.v) *)\n")...)
+	text = append(text, tr.EmitLiterals(p, []string{"ObjectID.String", "ElementID.String", "FeatureID.String",
+		"ParseObjectID", "ParseElementID", "ParseFeatureID"})...)
+	if err := tr.Emit(filepath.Join(out, "GenIds.v"), text); err != nil {
 		fmt.Fprintln(os.Stderr, err)
 		os.Exit(1)
 	}
